@@ -17,6 +17,8 @@ from tools import vlib
 from tools.vlib import d2tok, tok2d
 import femmio, gen, fem_oracle
 from runner import Run
+from checks import C03
+APROTO = {"consts", "problem", "np", "lp", "bp", "cp", "lab", "n", "e", "pbc", "run"}
 
 
 def gen_problem(rng, t):
@@ -67,9 +69,11 @@ def main(argv):
     mx = vlib.model_exe()
     try:
         hx = vlib.compile_harness("mag_harness", build, ("fsolver", "femm", "luacomplex"))
+        ax = vlib.compile_harness("assemble_m_harness", build, ("fsolver", "femm", "luacomplex"))
     except vlib.BuildError as e:
         ck.obligation_broken("correspondence mag_harness<->FSolver: " + str(e)[:300])
         hx = None
+        ax = None
     work = vlib.workdir("C05")
     nprob = 21 if ck.tier == "quick" else 180
     rng = ck.rng
@@ -115,6 +119,29 @@ def main(argv):
                                                      dict(element=int(l[1]), block=blk, inputs=blks[blk][2:6], impl=[tok2d(l[3]), tok2d(l[4])],
                                                           model=[tok2d(x) for x in model[blk]], files=run.files()))
                                 break
+                run.restore_mesh()
+            # ---- stage B: the whole system of the first pass of Static2D (planar problems) vs Model/MSolver.lean, bit for bit
+            if ax and not p.harmonic and p.ptype == "planar":
+                dump = os.path.join(run.dir, "sys_harness.txt")
+                try:
+                    r = subprocess.run([ax, run.base], stdout=subprocess.PIPE, stderr=subprocess.PIPE, text=True, timeout=600,
+                                       env=dict(os.environ, XFEMM_VERIF_DUMPSYS=dump))
+                    proto = [l for l in r.stdout.splitlines() if l.split() and l.split()[0] in APROTO]
+                    if "unsupported" in r.stdout:
+                        stats["assembly_unsupported"] = stats.get("assembly_unsupported", 0) + 1
+                    elif r.returncode != 0 or not os.path.exists(dump) or not proto:
+                        ck.violation("assembly-crash", "the real FSolver (in-process, assembly harness) failed (rc=%d): %s" % (r.returncode, (r.stdout[-200:] + r.stderr[-300:])),
+                                     dict(files=run.files()))
+                    else:
+                        m = subprocess.run([mx, "assemble-m"], input="\n".join(proto) + "\n", stdout=subprocess.PIPE, text=True, timeout=600)
+                        d = C03.compare_systems(open(dump).read().splitlines(), m.stdout.splitlines())
+                        stats["systems_compared"] = stats.get("systems_compared", 0) + 1
+                        stats["entries_compared"] = stats.get("entries_compared", 0) + sum(1 for l in m.stdout.splitlines() if l.startswith("E "))
+                        if d:
+                            ck.obligation_broken("correspondence assemble-m: FSolver::Static2D (first pass) vs Model/MSolver.lean (%s)" % d["what"],
+                                                 dict(first_difference=d, files=run.files()))
+                except subprocess.TimeoutExpired:
+                    ck.violation("assembly-timeout", "the real FSolver (in-process) did not finish within 600 s", dict(files=run.files()))
                 run.restore_mesh()
             slog = os.path.join(run.dir, "solve.log")
             rc = run.solve(env=dict(os.environ, XFEMM_VERIF_SOLVELOG=slog))
@@ -163,7 +190,9 @@ def main(argv):
                 for l, (kind, J) in Jc.items():
                     case, val = rec[l]
                     applied = val * 1e6 if case == 1 else -fem_oracle.label_sigma(p, l) * val
-                    if abs(applied - J) > 1e-7 * max(abs(J), abs(applied), 1e-30):
+                    # a circuit current that exactly offsets the block's own current density leaves rounding noise, not a density
+                    jscale = max([abs(b.get("J_re", 0.0)) * 1e6 for b in p.blockprops] + [abs(v) for (_, v) in Jc.values()] + [1e-30])
+                    if abs(applied - J) > 1e-7 * max(abs(J), abs(applied), 1e-30) + 1e-9 * jscale:
                         findings.append(("circuit-record", "label %d: the circuit record written with the solution gives %.9g A/m^2, the density that "
                                          "reproduces the circuit current is %.9g A/m^2" % (l, applied, J), dict(label=l)))
             stats["worst_oracle_residual"] = max(stats["worst_oracle_residual"], res["global_residual"])
